@@ -12,6 +12,18 @@ NA = [
 
 # property -> (technique, level text, level note, design ref)
 CLAIMED = {
+ "C06": ("CFG guard/dominance rules on every reader/writer mailbox and channel type + field-effect and async-join rules",
+         "Decides, on all paths of the TCP receiver, the TCP sender and the five reader resources, the structural clauses of transactional FIFO delivery: publish only on the commit tag after a successful ack, whole buffer as one record, buffer reset on begin and after publishing (MB-PUBLISH); Abort re-queues in-progress reads in front, Abort and Commit clear them (MB-REDELIVER); the backlog is served before the channel and every returned message is recorded (MB-BACKLOGFIRST); tag protocol exhaustive and conditioned on the section flag, section finished only after the decoded ack (MB-TAGS); resend buffer mirrors what was sent (MB-RESEND); OutputChan buffers until Commit, sends in order, and an asynchronous Commit/Abort/PreCommit is joined through its returned channel (CH-DEFER, ASYNC-JOIN); length counts pending messages only (MB-LEN); plus the RES-RESTORE/RES-PUBLISH instances. The history property (no loss/duplication/reordering over all interleavings) itself is not decided.",
+         "trusts go/types, go/cfg and the reader-type table (backlog / in-progress / channel field names per type) in checker/rules/mailbox.go",
+         "DESIGN.md section 4, C06"),
+ "C07": ("typestate (lock held / not held) decided by guard and dominance queries on the CFGs of localShared and LocalSharedManager",
+         "Decides strict two-phase locking structurally: the shared cell is reachable only on the success successor of tryEnsureLock; hasLock is set only after acquireWithTimeout returned true; release only in Commit/Abort (under hasLock, after the inner commit/abort, once, clearing hasLock) and paired in GetState; acquisition is a select with a time.After arm returning false and true only from the send arm; the untimed acquire only in GetState; lock channel capacity is the constant 1; cell and lock referenced only by the owning types. Serial equivalence of histories is implied by 2PL but not itself decided.",
+         "trusts go/types and go/cfg",
+         "DESIGN.md section 4, C07"),
+ "C17": ("CFG guard/dominance rules on Run, Stop, cleanupResources and the nested-context adapter; lock-region recognition (Lock + deferred Unlock)",
+         "Decides the lifecycle protocol on all paths: the exit request is sent at most once (under runStateLock, flag tested and set on the same path, capacity-1 channel) so no Stop can block while holding the lock Run's epilogue needs; awaitExit is closed only under the lock and only once (non-blocking-receive guard, or Run's epilogue which is registered only for a context that never ran and was not stopped); every path of Stop waits for awaitExit, outside the lock; every loop iteration polls requestExit before BeginEvent/Body/commit; cleanupResources closes every resource, is called exactly from the epilogue and its error is merged; map resources close all realised elements; nested contexts report exactly once and are collected. Timing bounds are not decided.",
+         "trusts go/types and go/cfg; one defect found by STOP-ONCE was repaired in /repo (fix: b0814347)",
+         "DESIGN.md section 4, C17"),
  "C01": ("who-may-call, field-effect-set and CFG ordering rules over every ArchetypeResource implementation (types.Implements) and the critical-section driver",
          "Decides the structural transaction protocol behind atomicity for all 36 resource implementations and for Run/commit/abort/Read/Write on all paths: lifecycle methods are called only by the driver or a same-named forwarding method (RES-OWNER); every field a section operation may write is written by Abort, snapshot fields are maintained (RES-RESTORE); wrappers/maps forward to and dirty-track their children (RES-FORWARD); value-carrying channel sends and file/database writes are reachable only from Commit (RES-PUBLISH); no Commit before the pre-commit error test, errors accumulate, dirty sets are cleared, Run aborts on the aborted arm and feeds commit errors back (CS-ORDER); handles are marked dirty before the resource is touched (CS-DIRTY); sentinels are never wrapped (ERR-SENTINEL); live cells are never re-bound (RES-NOREBIND). It decides that the protocol is followed, not that each Abort restores the right value.",
          "trusts go/types, go/cfg and the reasoned exception tables (restoreExceptions, publishExceptions, RES-OWNER exceptions) in checker/rules/resources.go",
